@@ -435,8 +435,9 @@ def ts_evaluation(ctx):
     ok = all(rc == 0 for rc, _, _ in results)
     so = '\n'.join(x[1] for x in results if x[0] != 0)
     se = '\n'.join(x[2] for x in results if x[0] != 0)
-    ctx.obligation('timestamp grid EVALUATION (not a proof): on %d generated stamps implementation = integer model = primitive-float model for decode and '
-                   're-encode, and every stamp of the domain satisfies the projection law' % len(cases), ok, 'evaluation', (so + se)[-400:])
+    ctx.obligation('timestamp grid EVALUATION (correspondence of the timestamp models): on %d generated stamps implementation = integer model = '
+                   'primitive-float model for decode and re-encode (and, redundantly with theorem C01_ts_projection, every stamp of the domain projects)'
+                   % len(cases), ok, 'evaluation', (so + se)[-400:])
     if not ok:
         import re
         dis, npj = [], []
